@@ -266,7 +266,7 @@ fn strat_knn(t: Tier) -> BoxedStrategy<KnnCase> {
             let kmin = if classifier { 2 } else { 1 };
             let k = if n >= kmin { kmin + idx(ks, n + 1 - kmin) } else { kmin };
             let ys = if classifier {
-                (Just(vec![-3.5, 0.0, 2.0, 7.25, 100.0]).prop_shuffle(), 2usize..=5, vec(any::<u16>(), n)).prop_map(|(vals, c, s)| s.iter().map(|x| vals[idx(*x, c)]).collect::<Vec<f64>>()).boxed()
+                (label_values([-3.5, 0.0, 2.0, 7.25, 100.0]), 2usize..=5, vec(any::<u16>(), n)).prop_map(|(vals, c, s)| s.iter().map(|x| vals[idx(*x, c)]).collect::<Vec<f64>>()).boxed()
             } else {
                 prop_oneof![vec(unit(), n), vec(small_int(-2, 2), n)].boxed()
             };
